@@ -702,6 +702,18 @@ type SpecSet struct {
 	GhostVars map[string]string // name -> sort
 	Order     []string          // function keys in declaration order
 	Lemmas    []*AxiomDecl
+	Frames    []*FrameDecl
+}
+
+// FrameDecl (`//@ frame P lo hi`): P is a recursive predicate with two set parameters lo and hi whose defining axioms
+// only inspect objects they assert to be in hi and not in lo (its footprint window). For such a predicate the frame
+// rule holds by induction on its derivation: if P holds for a window and a state, it holds for every window that
+// contains the first one and every state that agrees with the first one on all objects of the first window.
+// The rule is generated as an axiom (trusted meta-theorem; the condition on the defining axioms is the author's duty).
+type FrameDecl struct {
+	Name string
+	Pkg  string
+	File string
 }
 
 func NewSpecSet() *SpecSet {
@@ -712,7 +724,7 @@ var clauseKeywords = map[string]bool{
 	"sort": true, "ghost": true, "pure": true, "pred": true, "axiom": true, "func": true, "trusted": true,
 	"interface": true, "functype": true, "requires": true, "ensures": true, "modifies": true, "loop": true,
 	"invariant": true, "decreases": true, "unfold": true, "inherits": true, "bv": true, "inline": true,
-	"smt": true, "guarded": true, "assumes": true, "assert": true, "fieldinv": true, "raises": true, "maypanic": true, "lemma": true, "fresh": true, "end": true,
+	"smt": true, "guarded": true, "assumes": true, "assert": true, "fieldinv": true, "raises": true, "maypanic": true, "lemma": true, "fresh": true, "frame": true, "end": true,
 }
 
 // LoadSpecFile reads //@ lines from a file. pkgPath is the package the file belongs to ("" for trusted specs).
@@ -854,6 +866,8 @@ func (ss *SpecSet) LoadSpecFile(path, pkgPath string) error {
 				return fail(rc.line, "duplicate pure %s", pd.Name)
 			}
 			ss.Pures[pd.Name] = pd
+		case "frame":
+			ss.Frames = append(ss.Frames, &FrameDecl{Name: strings.TrimSpace(rc.text), Pkg: pkgPath, File: path})
 		case "axiom", "lemma":
 			k := strings.Index(rc.text, ":")
 			if k < 0 {
